@@ -1,9 +1,148 @@
 package main
 
-// Replay of solver counterexamples against the real code (DESIGN §5.3).
-// Per-function replay builders are registered in replayBuilders; a function without a
-// builder reports the model only (the VIOLATION line then ends with no-failing-input-found).
+// Replay of failed obligations against the real code (DESIGN §5.3).
+//
+// A replay is an in-package Go test injected with `go test -overlay` (nothing is written into
+// /repo). /verif/replay_map.json maps obligation-name prefixes to hand-written replay tests in
+// /verif/replays_src; the solver's model values for the function's inputs are handed to the
+// test in the VERIF_MODEL environment variable (JSON: SMT constant name -> value), so a test can
+// use the counterexample the solver found and fall back to its built-in witnesses otherwise.
+// The replay CONFIRMS a violation iff the test fails on the current tree.
+
+import (
+	"encoding/json"
+	"flag"
+	"fmt"
+	"os"
+	"os/exec"
+	"path/filepath"
+	"strings"
+	"time"
+)
+
+type replayEntry struct {
+	Property   string `json:"property"`
+	Obligation string `json:"obligation"` // prefix of the obligation name
+	Test       string `json:"test"`       // file under /verif/replays_src
+	Dir        string `json:"dir"`        // module directory (default /repo)
+	Pkg        string `json:"pkg"`        // package pattern (default ./vgirpc)
+}
+
+func loadReplayMap(verif string) []replayEntry {
+	var m []replayEntry
+	b, err := os.ReadFile(filepath.Join(verif, "replay_map.json"))
+	if err != nil {
+		return nil
+	}
+	_ = json.Unmarshal(b, &m)
+	return m
+}
+
+var verifDir = "/verif"
+
+func findReplay(prop, obligation string) *replayEntry {
+	var best *replayEntry
+	for _, e := range loadReplayMap(verifDir) {
+		e := e
+		if e.Property != prop || !strings.HasPrefix(obligation, e.Obligation) {
+			continue
+		}
+		if best == nil || len(e.Obligation) > len(best.Obligation) {
+			best = &e
+		}
+	}
+	return best
+}
+
+// runReplayTest injects the test into the package and runs it. confirmed = the test failed,
+// i.e. the real code exhibits the violation.
+func runReplayTest(e *replayEntry, model map[string]string) (confirmed bool, output string) {
+	dir, pkg := e.Dir, e.Pkg
+	if dir == "" {
+		dir = "/repo"
+	}
+	if pkg == "" {
+		pkg = "./vgirpc"
+	}
+	src := filepath.Join(verifDir, "replays_src", e.Test)
+	if _, err := os.Stat(src); err != nil {
+		return false, "replay test missing: " + src
+	}
+	pkgDir := filepath.Join(dir, strings.TrimPrefix(pkg, "./"))
+	tmp, err := os.MkdirTemp("", "verif-replay-")
+	if err != nil {
+		return false, err.Error()
+	}
+	defer os.RemoveAll(tmp)
+	ov := map[string]map[string]string{"Replace": {filepath.Join(pkgDir, "zz_verif_replay_test.go"): src}}
+	ob, _ := json.Marshal(ov)
+	ovf := filepath.Join(tmp, "ov.json")
+	os.WriteFile(ovf, ob, 0o644)
+	mb, _ := json.Marshal(model)
+	cmd := exec.Command("bash", "-c", fmt.Sprintf("ulimit -v 8000000; cd %q && go test -overlay %q -vet=off -count=1 -timeout 120s -run '^TestVerifReplay$' %s", dir, ovf, pkg))
+	cmd.Env = append(os.Environ(), "VERIF_MODEL="+string(mb))
+	done := make(chan struct{})
+	var out []byte
+	go func() { out, _ = cmd.CombinedOutput(); close(done) }()
+	select {
+	case <-done:
+	case <-time.After(180 * time.Second):
+		if cmd.Process != nil {
+			cmd.Process.Kill()
+		}
+		return false, "replay timed out"
+	}
+	s := string(out)
+	if len(s) > 6000 {
+		s = s[:6000] + "\n...(truncated)"
+	}
+	return strings.Contains(s, "--- FAIL: TestVerifReplay"), s
+}
 
 func tryReplay(prop string, r *Result, model map[string]string) (bool, string) {
-	return false, ""
+	e := findReplay(prop, r.Obl.Name)
+	if e == nil {
+		return false, ""
+	}
+	ok, out := runReplayTest(e, model)
+	return ok, "replay test " + e.Test + ":\n" + out
+}
+
+// cmdReplay re-runs the replay recorded in a replay file.
+func cmdReplay(args []string) int {
+	fs := flag.NewFlagSet("replay", flag.ExitOnError)
+	prop := fs.String("prop", "", "property id")
+	file := fs.String("file", "", "replay file written by a failed check")
+	fs.Parse(args)
+	b, err := os.ReadFile(*file)
+	if err != nil {
+		fmt.Println("cannot read replay file:", err)
+		return 2
+	}
+	var rep map[string]any
+	if err := json.Unmarshal(b, &rep); err != nil {
+		fmt.Println("bad replay file:", err)
+		return 2
+	}
+	obl, _ := rep["obligation"].(string)
+	fmt.Printf("obligation: %s\nclause: %v\nverdict: %v (solver %v)\nsmt query: %v\n", obl, rep["clause"], rep["verdict"], rep["solver"], rep["smt_file"])
+	e := findReplay(*prop, obl)
+	if e == nil {
+		fmt.Println("no executable replay is registered for this obligation; the solver output is in the replay file (no-failing-input-found)")
+		return 1
+	}
+	model := map[string]string{}
+	if mi, ok := rep["model_inputs"].(map[string]any); ok {
+		for k, v := range mi {
+			model[k] = fmt.Sprint(v)
+		}
+	}
+	ok, out := runReplayTest(e, model)
+	fmt.Println(out)
+	if ok {
+		fmt.Printf("VIOLATION property=%s replay=%s\n", *prop, *file)
+		return 1
+	}
+	fmt.Println("replay did not reproduce a failure on the current tree")
+	return 0
 }
